@@ -7,6 +7,7 @@ import (
 	"hash/crc32"
 	"io"
 	"os"
+	"os/exec"
 	"path/filepath"
 	"runtime"
 	"strconv"
@@ -359,6 +360,9 @@ func checkC11(c *ev.Ctx) {
 	}
 	wg.Wait()
 	close(done)
+	if thorough(c) && c.ReplayOf == "" {
+		nativeFuzz(c)
+	}
 	hist := map[string]int64{}
 	outcomes.Range(func(k, v any) bool { hist[k.(string)] = atomic.LoadInt64(v.(*int64)); return true })
 	c.Set("outcome_histogram", hist)
@@ -465,4 +469,42 @@ func errBucket(err error) string {
 		o = append(o, s[i])
 	}
 	return string(bytes.TrimSpace(o))
+}
+
+// nativeFuzz runs the three Go native fuzz targets for a fixed number of
+// executions each (count-bounded, not time-bounded).
+func nativeFuzz(c *ev.Ctx) {
+	modf := os.Getenv("VERIF_MODFILE")
+	if modf == "" {
+		c.Set("native_fuzzing", "skipped: VERIF_MODFILE not set")
+		return
+	}
+	execs := "1500000x"
+	if v := os.Getenv("VERIF_FUZZ_EXECS"); v != "" {
+		execs = v
+	}
+	done := map[string]string{}
+	for _, target := range []string{"FuzzXZ", "FuzzLZMA", "FuzzLZMA2"} {
+		cmd := exec.Command("go", "test", "-modfile="+modf, "-run=^$", "-fuzz=^"+target+"$", "-fuzztime="+execs, "./fuzz")
+		cmd.Dir = c.Dir
+		cmd.Env = append(os.Environ(), "GOFLAGS=-mod=mod", "GOPROXY=off", "GOSUMDB=off", "GOTOOLCHAIN=local")
+		out, err := cmd.CombinedOutput()
+		tailOut := clipStr(string(out[max(0, len(out)-1500):]), 1500)
+		if err != nil {
+			// a failing input is written below fuzz/testdata/fuzz/<target>/
+			files, _ := filepath.Glob(filepath.Join(c.Dir, "fuzz", "testdata", "fuzz", target, "*"))
+			what := fmt.Sprintf("native fuzz target %s failed: %v\n%s", target, err, tailOut)
+			det := map[string]any{"case_id": "native:" + target, "what": what, "failing_inputs": files}
+			if strings.Contains(string(out), "panic") || strings.Contains(string(out), "Failing input") {
+				c.Violation("native-fuzz-failure:"+target, det)
+			} else {
+				c.Inconclusive("native fuzzing of " + target + " could not run: " + clipStr(tailOut, 300))
+			}
+			done[target] = "failed"
+			continue
+		}
+		done[target] = execs
+		c.EvalN(1, "native:"+target, true)
+	}
+	c.Set("native_fuzzing_executions_per_target", done)
 }
